@@ -164,3 +164,30 @@ class amb:
         if s.choice == i:
             s.term = True
             out.on_completed()
+
+
+class take_until:
+    """the source's elements until the other sequence produces an element (which completes the output); errors of either end it; the other's
+    completion without an element changes nothing"""
+
+    def init(s):
+        s.term = False
+
+    def done(s):
+        return s.term
+
+    def on_next(s, out, i, x):
+        if i == 0:
+            out.on_next(x)
+        else:
+            s.term = True
+            out.on_completed()
+
+    def on_error(s, out, i, e):
+        s.term = True
+        out.on_error(e)
+
+    def on_completed(s, out, i):
+        if i == 0:
+            s.term = True
+            out.on_completed()
